@@ -142,6 +142,9 @@ func (rp recvProp) Exec(c Case) []string {
 
 // run renders the history as one XML stream, feeds it to the real receive loop and summarises what happened.
 func (rp recvProp) run(c Case, component bool, smid string, n0 int, rng *rand.Rand) string {
+	if who := c.Variant[0]; who == "client-tcp" || who == "client-ws" {
+		return rp.runReal(c, who, smid, n0, rng)
+	}
 	ns := "jabber:client"
 	if component {
 		ns = "jabber:component:accept"
@@ -444,6 +447,54 @@ func (rp recvProp) Generate(rng *rand.Rand, tier string, st *Stats) []Case {
 		}
 		mk(who, smid, n0, seq(kinds))
 	}
+
+	// the same loop over the real transports: XMPPTransport on a connection that goes half-open after the history
+	// (only the keepalive can notice), WebsocketTransport against an in-process server that sends whole, fragmented
+	// and batched messages. A stream error makes the client close the transport, so it can only come last; the
+	// WebSocket framing has no </stream:stream> and the harness cannot fail a WebSocket write.
+	realAlpha := map[string][]string{
+		"C05": {"msg", "iq", "pres", "r", "a", "nonza:features"},
+		"C09": {"msg", "pres", "iq", "r", "a"},
+		"C12": {"msg", "pres", "r", "a"},
+	}[rp.id]
+	RR := 24
+	if tier == "thorough" {
+		RR = 240
+	}
+	for i := 0; i < RR; i++ {
+		who := []string{"client-tcp", "client-ws"}[i%2]
+		ln := rng.Intn(12)
+		if i%8 == 7 {
+			ln = 30 + rng.Intn(60)
+		}
+		var kinds []string
+		for j := 0; j < ln; j++ {
+			kinds = append(kinds, realAlpha[rng.Intn(len(realAlpha))])
+		}
+		switch rng.Intn(6) {
+		case 0:
+			kinds = append(kinds, "serr")
+		case 1:
+			kinds = append(kinds, "cut")
+		case 2:
+			kinds = append(kinds, "junk")
+		case 3:
+			if who == "client-tcp" {
+				kinds = append(kinds, "close")
+			}
+		case 4:
+			if who == "client-tcp" {
+				kinds = append(kinds, "rfail")
+			}
+		}
+		smid := "sm1"
+		if rp.id == "C05" && i%6 >= 4 {
+			smid = ""
+		}
+		mk(who, smid, 0, seq(kinds))
+		st.Inc("real_transport_" + who)
+	}
+	st.Note(fmt.Sprintf("%d histories over the real transports (XMPPTransport on a half-open in-memory connection with the keepalive running; WebsocketTransport against an in-process server with whole / fragmented / batched messages)", RR))
 
 	// C12: every byte offset of generated streams
 	if rp.id == "C12" {
